@@ -9,6 +9,8 @@ def keys (m : OMap) : List String := m.map (·.1)
 
 def Distinct (m : OMap) : Prop := (keys m).Nodup
 
+instance (m : OMap) : Decidable (Distinct m) := by unfold Distinct; infer_instance
+
 def lookup (m : OMap) (k : String) : Option String := (m.find? (·.1 == k)).map (·.2)
 
 /-- set: replace the value in place when the key is present, else append. -/
@@ -18,5 +20,73 @@ def set (m : OMap) (e : Entry) : OMap :=
 def remove (m : OMap) (k : String) : OMap := m.filter (·.1 != k)
 
 def removeAll (m : OMap) (ks : List String) : OMap := m.filter (fun x => !ks.contains x.1)
+
+/-! ## Operations and observations (the interface both the spec and the model of `b6.Tags` implement) -/
+
+/-- One call of the tag-list API. -/
+inductive Op where
+  /-- `Get(k)` -/
+  | get (k : String)
+  /-- `ModifyOrAddTag(k=v)` -/
+  | set (e : Entry)
+  /-- `AddTag(k=v)` — in the property's domain only when `k` is not yet a key -/
+  | add (e : Entry)
+  /-- `RemoveTag(k)` -/
+  | rm (k : String)
+  /-- `RemoveTags(ks)` — any key list: repeated keys and absent keys allowed -/
+  | rms (ks : List String)
+  /-- `MergeFrom(other)` — in the property's domain only when `other` has distinct keys -/
+  | merge (other : OMap)
+  /-- `t = t.Clone()` -/
+  | clone
+deriving Repr, DecidableEq
+
+/-- What a call returns to the caller. -/
+inductive Out where
+  | unit
+  /-- result of `Get`: the value, or absent -/
+  | found (v : Option String)
+  /-- result of `ModifyOrAddTag`: (modified?, old value — `""` when it was added, as the Go code returns) -/
+  | modified (m : Bool) (old : String)
+deriving Repr, DecidableEq
+
+/-- the ordered-map meaning of every operation -/
+def step (m : OMap) : Op → OMap × Out
+  | .get k => (m, .found (lookup m k))
+  | .set e => (set m e, match lookup m e.1 with
+                        | some old => .modified true old
+                        | none => .modified false "")
+  | .add e => (m ++ [e], .unit)
+  | .rm k => (remove m k, .unit)
+  | .rms ks => (removeAll m ks, .unit)
+  | .merge o => (o, .unit)
+  | .clone => (m, .unit)
+
+/-- Is the call inside the property's domain ("tag lists with distinct keys") in state `m`?
+`AddTag` is a blind append and `MergeFrom` a blind copy, so they keep keys distinct only under these
+side conditions; every other operation is always in the domain. -/
+def Op.ok (m : OMap) : Op → Bool
+  | .add e => !(keys m).contains e.1
+  | .merge o => decide (Distinct o)
+  | _ => true
+
+/-- run an operation sequence, collecting what each call returned -/
+def run (m : OMap) : List Op → OMap × List Out
+  | [] => (m, [])
+  | op :: ops =>
+    let r := step m op
+    let rest := run r.1 ops
+    (rest.1, r.2 :: rest.2)
+
+/-- every call of the sequence is in the property's domain in the state it is applied to -/
+def ValidFrom (m : OMap) : List Op → Prop
+  | [] => True
+  | op :: ops => op.ok m = true ∧ ValidFrom (step m op).1 ops
+
+instance : (m : OMap) → (ops : List Op) → Decidable (ValidFrom m ops)
+  | _, [] => isTrue trivial
+  | m, op :: ops =>
+    have := instDecidableValidFrom (step m op).1 ops
+    by unfold ValidFrom; infer_instance
 
 end B6.Spec.OrderedMap
